@@ -1,8 +1,9 @@
 ------------------------------ MODULE TracePack ------------------------------
 EXTENDS Pack, Json, IOUtils, TLC
 T == ndJsonDeserialize(IOEnv.TRACE)
-VARIABLE ti
-tvars == <<vars, ti>>
+VARIABLES ti,
+          big      \* TRUE: the real buffer is far larger than the modelled window `size` (see Pack!PrefixOfLarger)
+tvars == <<vars, ti, big>>
 NoV == {}
 
 ResetA(sz) == /\ size' = sz /\ buf' = [i \in 1..sz |-> Pattern(i)] /\ p' = 0 /\ touched' = {} /\ nops' = 0 /\ res' = <<>>
@@ -25,16 +26,18 @@ Do(ev) ==
     [] ev.e = "Rewind" -> Rewind
     [] OTHER -> FALSE
 
-TraceInit == Init /\ size = 0 /\ ti = 1
+TraceInit == Init /\ size = 0 /\ ti = 1 /\ big = FALSE
 TraceNext ==
   /\ ti <= Len(T)
   /\ ti' = ti + 1
   /\ LET ev == T[ti] IN
-     IF ev.e = "Reset" THEN ResetA(ev.size)
-     ELSE /\ Do(ev)
+     IF ev.e = "Reset" THEN ResetA(ev.size) /\ big' = FALSE
+     ELSE IF ev.e = "ResetBig" THEN ResetA(ev.window) /\ big' = TRUE       \* real size 2^31 + ev.extra, modelled window ev.window
+     ELSE /\ Do(ev) /\ UNCHANGED big
           /\ ev.r = res'                 \* unpacked value / array contents
           /\ ev.p = p'                   \* rf_pack_consumed
-          /\ ev.rem = size - p'          \* rf_pack_remaining (negative after overflow)
+          /\ IF big THEN p' <= size       \* the window abstraction is only valid while everything requested lies inside it
+                    ELSE ev.rem = size - p'          \* rf_pack_remaining (negative after overflow)
           /\ ev.buf = buf'               \* buffer image
           /\ ev.g = 1                    \* guard bytes on both sides untouched
 TraceSpec == TraceInit /\ [][TraceNext]_tvars
